@@ -166,6 +166,29 @@ def run(R, tier, seed, drv_path):
     R.cov.setdefault("bounds", {})["K-fmt-paren"] = "all 17 binary x 4 unary operators as parent and as child, both operand sides, context strength >= the parent's, unbound_expr on/off inside call arguments"
     drv.close()
     core.log(f"[K-fmt-paren] {combos} combinations, {nviol} violations, {time.time()-t0:.1f}s")
+    if tier == "thorough" or os.environ.get("VERIF_KANI") == "1":
+        kani_cross_check(R, nviol)
+
+
+def kani_cross_check(R, nviol_mirsym):
+    """second opinion: the same property on three harnesses through Kani/CBMC over the compiled code (cfg(kani) hooks)"""
+    sys.path.insert(0, os.path.join(core.VERIF, "engines", "kani"))
+    import kani_run
+    res, dt = kani_run.run_kani()
+    R.cov["kani"] = {"seconds": round(dt, 1), "harnesses": res}
+    if "error" in res:
+        R.engine_error(f"kani cross-check: {res['error']}: {res.get('output', '')[-500:]}")
+        return
+    failed = [h for h, v in res.items() if v.get("verdict") != "SUCCESSFUL"]
+    uncovered = [h for h, v in res.items() if v.get("covers") and v["covers"][0] != v["covers"][1]]
+    if uncovered:
+        R.engine_error(f"kani cross-check: cover properties not satisfied (vacuity) in {uncovered}")
+    binary_pairs_failed = any("binary_in_binary" in h or "binary_in_unary" in h or "unary_argument" in h for h in failed)
+    if failed and nviol_mirsym == 0:
+        R.engine_error(f"engines disagree: Kani reports {failed} as failing while mirsym found no reproducible violation")
+    if not failed and nviol_mirsym > 0:
+        core.log("[kani] note: mirsym reports violations outside the three Kani harnesses' scope, or Kani disagrees")
+    core.log(f"[kani] {len(res)} harnesses in {dt:.0f}s: {[(h.split('::')[-1], v.get('verdict')) for h, v in res.items()]}")
 
 
 def need_ref(pkind, ckind, pop, cop, pos, unb, BO, UO, POS):
